@@ -103,12 +103,12 @@ Theorem c08_grant_iff : forall rate burst kt ks t0 (s0 : store) h n,
 Proof. intros. apply token_grant_iff; assumption. Qed.
 Print Assumptions c08_grant_iff.
 
-(* Between second s and second s+t at most burst + rate*t events are admitted. *)
+(* Between second s and second s+t at most burst + rate*t events are let through (granted_sum adds the n of the granted requests). *)
 Theorem c08_token_bound : forall rate burst kt ks t0 (s0 : store) h stf evs s t,
   kt <> ks -> 1 <= rate -> 1 <= burst -> rate <= 2 * burst ->
   alookup Nat.eqb kt s0 = None -> alookup Nat.eqb ks s0 = None -> hwf h -> 0 <= t ->
   hrun (mkC rate burst kt ks) (t0, s0) h = Some (stf, evs) ->
-  admitted (filter (in_win s t) evs) <= burst + rate * t.
+  granted_sum (filter (in_win s t) evs) <= burst + rate * t.
 Proof. intros. eapply token_bound; eassumption. Qed.
 Print Assumptions c08_token_bound.
 
